@@ -11,7 +11,6 @@ import (
 	"github.com/zclconf/go-cty/cty"
 	"github.com/zclconf/go-cty/cty/convert"
 
-	"verif/vfmt"
 )
 
 // ---- block labels -----------------------------------------------------
@@ -67,7 +66,7 @@ func labelsFeatures(labels []string) string {
 	seen := map[string]bool{}
 	var fs []string
 	for _, l := range labels {
-		f := stringFeatures(l)
+		f := stringFeatures(l) + stringSizeSuffix(l)
 		if !seen[f] {
 			seen[f] = true
 			fs = append(fs, f)
@@ -76,13 +75,26 @@ func labelsFeatures(labels []string) string {
 	return strings.Join(fs, ",")
 }
 
+func abbrevList(ls []string) string {
+	ps := make([]string, len(ls))
+	for i, l := range ls {
+		ps[i] = abbrev(l)
+	}
+	return "[" + strings.Join(ps, " ") + "]"
+}
+
+// typeFeature: part of a label class when the block type itself is a long
+// identifier token (the size dimension of identifiers).
+func typeFeature(typeName string) string {
+	if suf := tokenSizeSuffix(len(typeName)); suf != "" {
+		return "block-type" + suf + "."
+	}
+	return ""
+}
+
 // checkLabelsOnce builds one file with the requested construction path and
 // checks every read-back clause for labels.
 func checkLabelsOnce(reader, path, typeName string, labels []string) (sig string, class string, detail string) {
-	want := make([]string, len(labels))
-	for i, l := range labels {
-		want[i] = nfc(l)
-	}
 	file := hclwrite.NewEmptyFile()
 	var blk *hclwrite.Block
 	switch path {
@@ -99,19 +111,59 @@ func checkLabelsOnce(reader, path, typeName string, labels []string) (sig string
 		blk.SetLabels(labels)
 	}
 	blk.Body().SetAttributeValue("x", cty.True)
+	return verifyLabels(reader, file, blk, typeName, labels, "",
+		typeFeature(typeName)+labelsFeatures(labels),
+		fmt.Sprintf("%s(%s, %s)", path, abbrev(typeName), abbrevList(labels)))
+}
+
+// label2Paths: how the block of a two-step case gets its first labels. The
+// third path reads the labels between the two writes (a reader must not
+// change what the next write does).
+var label2Paths = []string{"NewBlock", "AppendNewBlock", "NewBlock+Labels()"}
+
+// checkLabels2Once: a block constructed with the labels first, then
+// SetLabels(second); everything reads back as second ("block labels read back
+// as the strings that were supplied": the strings supplied last).
+func checkLabels2Once(reader, path, typeName string, first, second []string) (sig string, class string, detail string) {
+	file := hclwrite.NewEmptyFile()
+	var blk *hclwrite.Block
+	switch path {
+	case "AppendNewBlock":
+		blk = file.Body().AppendNewBlock(typeName, first)
+	default:
+		blk = hclwrite.NewBlock(typeName, first)
+		file.Body().AppendBlock(blk)
+	}
+	if path == "NewBlock+Labels()" {
+		_ = blk.Labels()
+	}
+	blk.SetLabels(second)
+	blk.Body().SetAttributeValue("x", cty.True)
+	return verifyLabels(reader, file, blk, typeName, second, "replace.",
+		typeFeature(typeName)+labelsFeatures(first)+".then."+labelsFeatures(second),
+		fmt.Sprintf("%s(%s, %s) then SetLabels(%s)", path, abbrev(typeName), abbrevList(first), abbrevList(second)))
+}
+
+// verifyLabels applies the read-back clauses for labels to one written block:
+// labels are the strings supplied (last); the class of a failure is
+// "c11.label." + prefix + clause + "." + feat.
+func verifyLabels(reader string, file *hclwrite.File, blk *hclwrite.Block, typeName string, labels []string, prefix, feat, what string) (sig string, class string, detail string) {
+	want := make([]string, len(labels))
+	for i, l := range labels {
+		want[i] = nfc(l)
+	}
 	src := file.Bytes()
-	feat := labelsFeatures(labels)
 	fail := func(clause, format string, a ...any) (string, string, string) {
-		return "", "c11.label." + clause + "." + feat, fmt.Sprintf("%s(%q, %q) wrote %s: ", path, typeName, labels, clip(src)) + fmt.Sprintf(format, a...)
+		return "", "c11.label." + prefix + clause + "." + feat, fmt.Sprintf("%s wrote %s: ", what, clip(src)) + fmt.Sprintf(format, a...)
 	}
 
 	// reader "constructed": the in-memory block reports the labels it was given
 	if reader == "constructed" {
 		if got := blk.Labels(); !eqStrings(got, want) {
-			return fail("constructed-block-labels", "Block.Labels() on the constructed block = %q, want %q", got, want)
+			return fail("constructed-block-labels", "Block.Labels() on the constructed block = %s, want %s", abbrevList(got), abbrevList(want))
 		}
 		if got := blk.Type(); got != typeName {
-			return fail("constructed-block-type", "Block.Type() = %q, want %q", got, typeName)
+			return fail("constructed-block-type", "Block.Type() = %s, want %s", abbrev(got), abbrev(typeName))
 		}
 		return string(src), "", ""
 	}
@@ -126,10 +178,10 @@ func checkLabelsOnce(reader, path, typeName string, labels []string) (sig string
 	}
 	pb := body.Blocks[0]
 	if pb.Type != typeName {
-		return fail("type-mismatch", "block type reads back as %q", pb.Type)
+		return fail("type-mismatch", "block type reads back as %s", abbrev(pb.Type))
 	}
 	if !eqStrings(pb.Labels, want) {
-		return fail("labels-mismatch", "labels read back as %q, want %q", pb.Labels, want)
+		return fail("labels-mismatch", "labels read back as %s, want %s", abbrevList(pb.Labels), abbrevList(want))
 	}
 	if a := pb.Body.Attributes["x"]; a == nil || len(pb.Body.Attributes) != 1 {
 		return fail("structure", "block body does not consist of the one attribute written")
@@ -157,9 +209,9 @@ func checkLabelsOnce(reader, path, typeName string, labels []string) (sig string
 			}
 		}
 		if multi {
-			return "", "c11.hclwrite-labels-multitoken", fmt.Sprintf("%s(%q, %q) wrote %s; hclwrite.ParseConfig(...).Body().Blocks()[0].Labels() = %q, want %q (a label whose quoted form scans as several literal tokens is dropped)", path, typeName, labels, clip(src), got, want)
+			return "", "c11.hclwrite-labels-multitoken", fmt.Sprintf("%s wrote %s; hclwrite.ParseConfig(...).Body().Blocks()[0].Labels() = %s, want %s (a label whose quoted form scans as several literal tokens is dropped)", what, clip(src), abbrevList(got), abbrevList(want))
 		}
-		return fail("hclwrite-reparse-labels-mismatch", "hclwrite.ParseConfig(...).Blocks()[0].Labels() = %q, want %q", got, want)
+		return fail("hclwrite-reparse-labels-mismatch", "hclwrite.ParseConfig(...).Blocks()[0].Labels() = %s, want %s", abbrevList(got), abbrevList(want))
 	}
 	return string(src), "", ""
 }
@@ -174,9 +226,12 @@ type Step struct {
 func (s Step) short() string {
 	switch s.K {
 	case "attr":
+		if len(s.S) > 48 {
+			return "." + abbrev(s.S)
+		}
 		return "." + s.S
 	case "str":
-		return "[" + fmt.Sprintf("%+q", s.S) + "]"
+		return "[" + abbrev(s.S) + "]"
 	}
 	return "[" + s.S + "]"
 }
@@ -193,7 +248,7 @@ func buildTraversal(root string, steps []Step) (hcl.Traversal, error) {
 		case "str":
 			t = append(t, hcl.TraverseIndex{Key: cty.StringVal(s.S)})
 		case "num":
-			ns, ok := numberByName[s.S]
+			ns, ok := lookupNumber(s.S)
 			if !ok {
 				return nil, fmt.Errorf("unknown number %q", s.S)
 			}
@@ -213,12 +268,12 @@ func stepShape(s hcl.Traverser) string {
 		if keywords[s.Name] {
 			return "attr-keyword-" + s.Name
 		}
-		return "attr"
+		return "attr" + tokenSizeSuffix(len(s.Name))
 	case hcl.TraverseIndex:
 		if s.Key.Type() == cty.Number {
-			return "index-number-" + numberShape(s.Key)
+			return "index-number-" + numberShape(s.Key) + tokenSizeSuffix(maxTokenLen(s.Key))
 		}
-		return "index-string-" + stringFeatures(s.Key.AsString())
+		return "index-string-" + stringFeatures(s.Key.AsString()) + stringSizeSuffix(s.Key.AsString())
 	}
 	return fmt.Sprintf("%T", s)
 }
@@ -254,7 +309,7 @@ func sameSteps(got, want hcl.Traversal) (bool, string) {
 		case hcl.TraverseIndex:
 			g, ok := got[i].(hcl.TraverseIndex)
 			if !ok || !keyEquals(g.Key, w.Key) {
-				return false, fmt.Sprintf("step %d is %s, want index %s", i, describeStep(got[i]), vfmt.V(w.Key))
+				return false, fmt.Sprintf("step %d is %s, want index %s", i, describeStep(got[i]), showV(w.Key))
 			}
 		}
 	}
@@ -284,7 +339,7 @@ func describeStep(s hcl.Traverser) string {
 	case hcl.TraverseAttr:
 		return fmt.Sprintf("attr %q", s.Name)
 	case hcl.TraverseIndex:
-		return "index " + vfmt.V(s.Key)
+		return "index " + showV(s.Key)
 	}
 	return fmt.Sprintf("%T", s)
 }
@@ -347,7 +402,7 @@ func checkTraversal(via string, src []byte, expr hcl.Expression, trav hcl.Traver
 		return "eval-error", fmt.Sprintf("%s: %s does not evaluate on a scope where the original traversal selects the leaf: %s", via, clip(src), gd.Error()), false
 	}
 	if !got.RawEquals(want) {
-		return "eval-mismatch", fmt.Sprintf("%s: %s evaluates to %s where the original traversal selects %s", via, clip(src), vfmt.V(got), vfmt.V(want)), false
+		return "eval-mismatch", fmt.Sprintf("%s: %s evaluates to %s where the original traversal selects %s", via, clip(src), showV(got), showV(want)), false
 	}
 	return "", "", negKey
 }
